@@ -616,7 +616,7 @@ class RegularPolygon(Polygon):
     @property
     def center(self) -> Point:
         """The center of the polygon."""
-        return Point(*np.sum(self.normalized_array[:, :-1], axis=0))
+        return Point(*np.mean(self.normalized_array[:, :-1], axis=0))
 
     @property
     def inradius(self) -> npt.NDArray[np.float64]:
